@@ -1046,3 +1046,112 @@ func factsJailBody(p *pkg) {
 	emit("def jailBodyRootsFound : Bool := %s", boolLean(len(decls["Unpack"]) > 0 && len(decls["UnpackLayer"]) > 0 && len(decls["Do"]) > 0))
 	emit("")
 }
+
+// ---------------------------------------------------------------- Unpack: replace / merge / skip / refuse
+
+// unpackCondLean renders the conditions of Unpack's "something is already at the path" block over four
+// booleans; anything it does not recognise makes the whole fact `none`.
+func unpackCondLean(fset *token.FileSet, x ast.Expr) (string, bool) {
+	switch v := x.(type) {
+	case *ast.ParenExpr:
+		s, ok := unpackCondLean(fset, v.X)
+		return "(" + s + ")", ok
+	case *ast.BinaryExpr:
+		switch v.Op {
+		case token.LAND, token.LOR:
+			a, ok1 := unpackCondLean(fset, v.X)
+			b, ok2 := unpackCondLean(fset, v.Y)
+			op := " && "
+			if v.Op == token.LOR {
+				op = " || "
+			}
+			return "(" + a + op + b + ")", ok1 && ok2
+		}
+	case *ast.UnaryExpr:
+		if v.Op == token.NOT {
+			a, ok := unpackCondLean(fset, v.X)
+			return "(!" + a + ")", ok
+		}
+	}
+	switch exprString(fset, x) {
+	case "options.NoOverwriteDirNonDir":
+		return "noOverwrite", true
+	case "fi.IsDir()":
+		return "isDir", true
+	case "hdr.Typeflag == tar.TypeDir":
+		return "entIsDir", true
+	case "hdr.Typeflag != tar.TypeDir":
+		return "(!entIsDir)", true
+	case `rel == "."`:
+		return "isSelf", true
+	}
+	return "", false
+}
+
+// factsUnpackDecision: the if-chain inside `if fi, err := os.Lstat(path); err == nil { … }` of Unpack as a
+// decision function: 1 = return an error, 2 = continue (skip the entry), 3 = os.RemoveAll(path) first, 0 = fall through.
+func factsUnpackDecision(p *pkg) {
+	emit("-- archive.go Unpack: what happens when something is already at the entry's path")
+	emit("/-- 1 = conflict error, 2 = skip the entry, 3 = remove what is there first, 0 = merge (nothing removed); in source order -/")
+	none := func() {
+		emit("def unpackDecision? : Option (Bool → Bool → Bool → Bool → Nat) := none")
+		emit("")
+	}
+	fd, fset := findFunc(p, "Unpack", "")
+	if fd == nil {
+		none()
+		return
+	}
+	var blk *ast.BlockStmt
+	ast.Inspect(fd.Body, func(n ast.Node) bool {
+		is, ok := n.(*ast.IfStmt)
+		if !ok || is.Init == nil || blk != nil {
+			return true
+		}
+		if exprString(fset, is.Init) == "fi, err := os.Lstat(path)" && exprString(fset, is.Cond) == "err == nil" && is.Else == nil {
+			blk = is.Body
+		}
+		return true
+	})
+	if blk == nil {
+		none()
+		return
+	}
+	var sb strings.Builder
+	for _, st := range blk.List {
+		is, ok := st.(*ast.IfStmt)
+		if !ok || is.Init != nil || is.Else != nil || len(is.Body.List) != 1 {
+			none()
+			return
+		}
+		cond, good := unpackCondLean(fset, is.Cond)
+		if !good {
+			none()
+			return
+		}
+		act := 0
+		switch b := is.Body.List[0].(type) {
+		case *ast.ReturnStmt:
+			if len(b.Results) == 1 && strings.HasPrefix(exprString(fset, b.Results[0]), "fmt.Errorf(") {
+				act = 1
+			}
+		case *ast.BranchStmt:
+			if b.Tok == token.CONTINUE {
+				act = 2
+			}
+		case *ast.IfStmt:
+			// if err := os.RemoveAll(path); err != nil { return err }
+			if b.Init != nil && exprString(fset, b.Init) == "err := os.RemoveAll(path)" && exprString(fset, b.Cond) == "err != nil" {
+				act = 3
+			}
+		}
+		if act == 0 {
+			none()
+			return
+		}
+		sb.WriteString("if " + cond + " then " + strconv.Itoa(act) + " else ")
+	}
+	sb.WriteString("0")
+	emit("def unpackDecision? : Option (Bool → Bool → Bool → Bool → Nat) := some fun noOverwrite isDir entIsDir isSelf => %s", sb.String())
+	emit("")
+}
